@@ -52,8 +52,8 @@ structure SettingR (file : Bytes) (crs ncols : Nat) (im : List Nat) (hrow : List
 
 /-- the driver between two kernel calls: the window starts at line `q`, `e ≥ q` lines (header line included) are consumed,
     the index buffer has `maxrow` rows; either the next call reads a fresh window (`e = q`) or it resumes inside the window
-    that is held in `content` -/
-structure DI (file : Bytes) (w ncols : Nat) (im : List Nat) (hrow : List Cell) (rows : List (List Cell))
+    that is held in `content`; importer `c` (the family `F`, see `ImpHom`) has consumed exactly the first `e - 1` records -/
+structure DI (F : Nat → List Bytes → Imp) (file : Bytes) (w ncols : Nat) (im : List Nat) (hrow : List Cell) (rows : List (List Cell))
     (s : DS) (q e maxrow : Nat) : Prop where
   qe : q ≤ e
   el : e ≤ rows.length + 1
@@ -65,7 +65,7 @@ structure DI (file : Bytes) (w ncols : Nat) (im : List Nat) (hrow : List Cell) (
   maxpos : 0 < maxrow
   shape : Shape ncols maxrow s.offs s.inds s.vals
   zero : ∀ c, c < ncols → ∃ r, s.inds[c]? = some r ∧ r[0]? = some 0
-  imps : s.imps = im.map (fun c => fieldOf' (doneCols rows (e - 1) c))
+  imps : s.imps = im.map (fun c => F c (doneCols rows (e - 1) c))
   win : (s.indsFull = false ∧ s.valsFull = false ∧ e = q) ∨
         ((s.indsFull || s.valsFull) = true ∧ 0 < e ∧ s.content = readWindow file (bnd hrow rows q) w ∧
           s.start = bnd hrow rows e - bnd hrow rows q ∧ bnd hrow rows q < file.length)
